@@ -48,6 +48,9 @@ Accept(e) ==
   /\ SeqInRange(e.fwd, e.n) /\ SeqInRange(e.rev, e.n) /\ SeqInRange(e.pre, e.n) /\ SeqInRange(e.prerev, e.n)
   /\ SeqInRange(e.post, e.n) /\ SeqInRange(e.postrev, e.n)
   /\ OrdersOK(tr, e.fwd, e.rev, e.pre, e.prerev, e.post, e.postrev)
+  \* the lower-case spelling of every macro yields the same sequence; the tear-down loop macros hand out every node exactly once
+  /\ e.fwd2 = e.fwd /\ e.rev2 = e.rev /\ e.pre2 = e.pre /\ e.prerev2 = e.prerev /\ e.post2 = e.post /\ e.postrev2 = e.postrev
+  /\ Len(e.fortear) = e.n /\ {e.fortear[i] : i \in 1..Len(e.fortear)} = 1..e.n /\ e.fortear2 = e.fortear
   /\ StepsOK(tr, e)
   /\ \A i \in 1..Len(e.tears) : TearOK(tr, e.tears[i], e.n)
 
